@@ -5,3 +5,18 @@ open ZCV.Props.C20
 #print axioms C20_std_stream_options_refused
 #print axioms C20_rotation_requires_old_files
 #print axioms C20_closeFiles_closes_all_registered
+#print axioms C20_level_table
+#print axioms C20_level_case_insensitive
+#print axioms C20_level_names_any_case
+#print axioms C20_registry_invariant
+#print axioms C20_reopen_exactly_live
+#print axioms C20_close_exactly_live
+#print axioms C20_dropped_never_touched
+#print axioms C20_filehandler_decision_table
+#print axioms C20_filehandler_decision
+#print axioms C20_factory_memo
+#print axioms C20_factory_idempotent
+#print axioms C20_logger_setup
+#print axioms C20_section_setup
+#print axioms C20_logger_setup_any
+#print axioms C20_configure_loggers
